@@ -6,7 +6,8 @@
                        (i)   an instruction whose operand is an allocation size (ONES / ZEROS / SINE /
                              the vector RANDs) is only executed with top INTEGER <= ALLOC_BOUND; the
                              LIST.NEIGHBOR* family (cost size x dimensions) only with its four INTEGER
-                             operands <= NBR_BOUND;
+                             operands <= NBR_BOUND; CODE.RAND only when its point limit
+                             min(|top INTEGER|, |max_points_in_random_expressions|) is <= RAND_POINTS_BOUND;
                        (ii)  EXEC.CMD is only executed when it cannot spawn (operands missing) or when
                              every NAME it consumes spells the harmless command "true";
                        (iii) the size measure of the state (weighted points of CODE, EXEC and the
@@ -23,6 +24,10 @@
                      2 the case lies outside the envelope.  Two case shapes: a `run` case (6 elements)
                      and a `randcode` case (4 elements), whose observed payload (N k texts) counts the
                      panicking programs: 1 iff k = 0.
+   "runnp"         : suite "run" with the payload dropped: (0 ()) returned normally, (1) panicked.  For cases
+                     whose result is not a function of the case (the RAND instructions: the implementation
+                     draws from thread_rng, the model from the tape of the case); the theorems of C01 hold for
+                     every tape, so "returned normally" is compared and nothing else.
    "randcode"      : the model side of the stream of programs drawn from pushr's own random code
                      generator: (profile N max_points (name ...)) -> (0 (N 0 ())), "no program panicked". *)
 From Coq Require Import ZArith String List Bool.
@@ -36,6 +41,7 @@ Definition NBR_BOUND : Z := 1000.
 Definition SIZE_BOUND : Z := 200000.
 Definition STEP_BOUND : Z := 10000.
 Definition DEPTH_BOUND : Z := 5000.
+Definition RAND_POINTS_BOUND : Z := 1000.
 
 Definition alloc_names : list str := map s2l
   [ "BOOLVECTOR.ONES"; "BOOLVECTOR.ZEROS"; "INTVECTOR.ONES"; "INTVECTOR.ZEROS"; "FLOATVECTOR.ONES"; "FLOATVECTOR.ZEROS";
@@ -43,6 +49,7 @@ Definition alloc_names : list str := map s2l
 Definition nbr_names : list str := map s2l
   [ "LIST.NEIGHBOR*IDS"; "LIST.NEIGHBOR*BVALS"; "LIST.NEIGHBOR*IVALS"; "LIST.NEIGHBOR*FVALS" ]%string.
 Definition cmd_name : str := s2l "EXEC.CMD".
+Definition code_rand_name : str := s2l "CODE.RAND".
 Definition harmless_cmd : str := s2l "true".
 
 Fixpoint str_mem (n : str) (l : list str) : bool :=
@@ -100,6 +107,11 @@ Definition instr_guard (s : state) : bool :=
       if str_mem n alloc_names then ints_le 1 ALLOC_BOUND s
       else if str_mem n nbr_names then ints_le 4 NBR_BOUND s
       else if str_eqb n cmd_name then cmd_guard s
+      else if str_eqb n code_rand_name then
+        match st_int s with
+        | z :: _ => Z.min (Z.abs z) (Z.abs (cfg_max_points_rand (st_cfg s))) <=? RAND_POINTS_BOUND
+        | [] => true
+        end
       else true
   | _ => true
   end.
@@ -148,6 +160,13 @@ Definition pm_nopanic_env (c : sx) : sx :=
       | _, _, _, _ => sx_bad
       end
   | _ => sx_bad
+  end.
+
+(* ---- suite "run" reduced to normal return / panic ---- *)
+Definition pm_runnp (c : sx) : sx :=
+  match pm_run c with
+  | SL [SZ 0; _] => SL [SZ 0; SL []]
+  | r => r
   end.
 
 (* ---- stream (c): programs of pushr's own random code generator ---- *)
